@@ -371,10 +371,47 @@ def r8_6(ctx):
     c11.r11_5(ctx)
 
 
+def r8_7(ctx):
+    """the writer re-escapes what `unmake` hands it (Rule::to_expression_string -> escaped_printable); a rule that decoded its expression when it
+    was made must therefore unmake to the *decoded* bytes - the very field its `matches` compares the line with - or written escape sequences
+    are escaped a second time and the canonical rendering re-parses to other contents"""
+    prog = ctx.prog
+    n = 0
+    for b in prog.bodies:
+        if b.promoted is not None or b.kind != "AssocFn" or b.name != "make" or not b.impl_trait or not b.impl_trait.endswith("RuleMaker") or "::tests" in b.npath:
+            continue
+        o = Origins(b)
+        ty = b.impl_self.split("::")[-1]
+        decoded = None
+        for bb, si, rv in aggregates(b, ty):
+            for fld, op in zip(rv["fields"], rv["ops"]):
+                if any(x.kind == "call" and x.a.endswith("apply_escaped_filter_bytes") for x in o.operand(op).walk()):
+                    decoded = fld
+        if decoded is None:
+            continue
+        n += 1
+        try:
+            u = prog.impl_fn(ty, "Rule", "unmake")
+            m = prog.impl_fn(ty, "Rule", "matches")
+        except AnchorError:
+            ctx.bad("unmake-decoded:" + ty, b.where(), "%s decodes escapes in make() but has no unmake/matches" % ty)
+            continue
+        ur = peel(Origins(u).local(0))
+        comp = peel(ur.kids[1]) if ur.kind == "agg" and len(ur.kids) == 2 else None
+        from_field = sorted({x.a for x in comp.walk() if x.kind == "field" and x.kids and peel(x.kids[0]).kind == "arg" and peel(x.kids[0]).a == 1}) if comp is not None else []
+        mfields = sorted({x.a for x in Origins(m).local(0).walk() if x.kind == "field" and x.kids and peel(x.kids[0]).kind == "arg" and peel(x.kids[0]).a == 1})
+        ctx.check(from_field == [decoded] and decoded in mfields, "unmake-decoded:" + ty, u.where(),
+                  "%s::unmake returns the decoded bytes (field %s, the field matches() compares with the line)" % (ty, decoded),
+                  "%s::make stores the decoded bytes in field %s (matches() reads %s) but unmake returns field(s) %s: the writer escapes the already "
+                  "escaped source text once more when it contains a raw unprintable character" % (ty, decoded, mfields, from_field))
+    ctx.check(n >= 1, "decoding-rules", "-", "%d rule type(s) decode escapes in make()" % n, "no rule type decoding escapes in make() found")
+
+
 def run(ctx):
     ctx.run_rule("R8.1", "extract, by cases (capture count x kind capture empty): an empty kind capture always means `equal` on every path (contradiction rule) [E-TABLE by case analysis]", r8_1, floor=10)
     ctx.run_rule("R8.2", "extract indexes captures[k] only with k < capture count on every case [E-TABLE]", r8_2, floor=5)
     ctx.run_rule("R8.3", "grammar template: ^ (.*?) (?: \\s \\( (names|)? ([*+?])? \\) )? $ with names from the registry via regex::escape [E-TABLE, parsed template]", r8_3, floor=8)
     ctx.run_rule("R8.4", "quantifier tables: reader (q -> optional, multiline) and writer (flags -> ` (q)` / `(kind q)`) are mutually inverse; fields not swapped [E-TABLE]", r8_4, floor=9)
     ctx.run_rule("R8.6", "canonical rendering: ` (escaped)` decision (has_unprintable) and rendering (escaped_printable) agree on the character class [E-TABLE sibling agreement]", r8_6, floor=5)
+    ctx.run_rule("R8.7", "a rule that decodes escapes in make() unmakes to the decoded bytes its matches() compares with (the writer re-escapes them) [E-FLOW sibling agreement]", r8_7, floor=2)
     ctx.run_rule("R8.5", "every kind() literal is the first registered name of its maker (canonical rendering re-parses to the same rule) [E-TABLE]", r8_5, floor=10)
